@@ -27,7 +27,7 @@ Inductive probe :=
 | PReadOnly (k : Z) (rewrite : outcome)
 (* Instance graph of the object (driver-side fixture, not in the Gallina model): the child object(s)
    reached through an Instance / List(Instance) trait: shared with the original?  equal state? *)
-| PInst (k : Z) (shared : bool) (equal : bool).
+| PInst (k : Z) (meta : option cmode) (shared : bool) (equal : bool).   (* meta: the trait's copy metadata *)
 
 Record cobs := {
   co_same_class : bool;
@@ -117,7 +117,7 @@ Definition clause_invalid (ob : cobs) : bool :=
                      | PCont _ _ inv _ _ _ _ _ => out_is inv 1
                      | PScalar _ inv => out_is inv 1
                      | PReadOnly _ _ => true
-                     | PInst _ _ _ => true
+                     | PInst _ _ _ _ => true
                      end) (co_probes ob).
 
 Definition clause_valid (ob : cobs) : bool :=
@@ -134,21 +134,32 @@ Definition clause_valid (ob : cobs) : bool :=
 Definition clause_readonly (c : cls) (ob : cobs) : bool :=
   forallb (fun pr => match pr with
                      | PReadOnly k rw =>
-                         match vget (co_orig ob) k, cget c k with
-                         | Some _, Some d =>
-                             td_transient d ||
-                             (out_is rw 1 && oshape_eqb (vget (co_copy ob) k) (vget (co_orig ob) k))
-                         | _, _ => true
+                         match cget c k with
+                         | Some d =>
+                             match vget (co_orig ob) k with
+                             | Some _ => td_transient d ||
+                                         (out_is rw 1 && oshape_eqb (vget (co_copy ob) k) (vget (co_orig ob) k))
+                             | None => true
+                             end
+                         | None => out_is rw 1   (* fixture: an attribute writable only until the object is
+                                                    initialised (UUID(can_init=True)), written at construction *)
                          end
                      | _ => true
                      end) (co_probes ob).
 
-(* Instance traits carry copy="deep" metadata: the children are copied (not shared) under every
-   operation, with equal state *)
-Definition clause_instances (ob : cobs) : bool :=
-  forallb (fun pr => match pr with PInst _ shared equal => negb shared && equal | _ => true end) (co_probes ob).
+(* children reached through Instance / List(Instance) / Dict traits: equal state, and not shared with the
+   original whenever the property's mode for that trait is deep (Instance and List carry copy="deep"
+   metadata; a Dict trait carries none, so it is deep under pickle / deepcopy / clone_traits(copy="deep")) *)
+Definition clause_instances (op : copyop) (ob : cobs) : bool :=
+  forallb (fun pr => match pr with
+                     | PInst _ meta shared equal =>
+                         equal && (negb shared ||
+                                   match law_mode op {| td_type := TAny; td_transient := false; td_copy := meta |} with
+                                   | CDeep => false | _ => true end)
+                     | _ => true
+                     end) (co_probes ob).
 
 Definition law (op : copyop) (c : cls) (ob : cobs) : list Z :=
   chk 1 (co_same_class ob) ++ chk 2 (clause_values c ob) ++ chk 3 (clause_transient c ob)
   ++ chk 4 (clause_unshared op c ob) ++ chk 5 (clause_owner c ob) ++ chk 6 (clause_invalid ob)
-  ++ chk 7 (clause_valid ob) ++ chk 8 (clause_readonly c ob) ++ chk 9 (clause_instances ob).
+  ++ chk 7 (clause_valid ob) ++ chk 8 (clause_readonly c ob) ++ chk 9 (clause_instances op ob).
